@@ -161,7 +161,8 @@ def make_mpo(ham, length):
     if kind == "heis":
         return MPO.heisenberg(length, ham["Jx"], ham["Jy"], ham["Jz"], ham["h"])
     m = MPO()
-    m.from_pauli_sum(terms=[(float(c), str(s)) for c, s in ham["terms"]], length=length)
+    # `sweeps = 0`: the uncompressed automaton, whose bond blocks are bare Pauli matrices (a block that is exactly Y is purely imaginary)
+    m.from_pauli_sum(terms=[(float(c), str(s)) for c, s in ham["terms"]], length=length, n_sweeps=int(ham.get("sweeps", 2)))
     return m
 
 
@@ -201,7 +202,7 @@ def rand_ham(rng, length):
     terms += [[round(rng.uniform(0.2, 1) * rng.choice([-1, 1]), 3), f"X{i}"] for i in range(length)]
     terms += [[round(rng.uniform(-1, 1), 3), f"Y{i} X{i + 1}"] for i in range(length - 1)]
     terms += [[round(rng.uniform(-1, 1), 3), f"Z{i}"] for i in range(length)]
-    return {"kind": "asym", "terms": terms}
+    return {"kind": "asym", "terms": terms, "sweeps": rng.choice([0, 2])}
 
 
 def rand_state(rng, length):
